@@ -6,6 +6,7 @@ import (
 	"encoding/json"
 	"fmt"
 	"os"
+	"regexp"
 	"sort"
 	"strings"
 	"time"
@@ -486,6 +487,33 @@ func (s *Sim) electionFailure() *core.Violation {
 			}(), len(addrs), in.Sched.MaxValidatorsPerEntity, capacity, in.Sched.MinValidators, in.Sched.MaxValidators, in.BeaconBackend, len(in.VRFProvers), lastLogLine(core.Logs.Recent())))
 }
 
+var fatalCauseRe = regexp.MustCompile(`fatal error in application: '([^']+)': ([^"\\\n]+)`)
+
+// fatalCause extracts the logged cause of the most recent fatal application error ("<app>:
+// <message>", digits normalised), or "".
+func fatalCause() string {
+	ms := fatalCauseRe.FindAllStringSubmatch(core.Logs.Recent(), -1)
+	if len(ms) == 0 {
+		return ""
+	}
+	m := ms[len(ms)-1]
+	msg := strings.TrimSpace(m[2])
+	if len(msg) > 120 {
+		msg = msg[:120]
+	}
+	msg = regexp.MustCompile(`[0-9]+`).ReplaceAllString(msg, "#")
+	return m[1] + ": " + msg
+}
+
+// rejectedFingerprint is the fingerprint of a refused honest proposal: the kind plus the logged
+// fatal cause, so that a recorded finding does not cover other causes.
+func rejectedFingerprint(kind string) string {
+	if c := fatalCause(); c != "" {
+		return kind + " [" + c + "]"
+	}
+	return kind
+}
+
 func lastLogLine(l string) string {
 	l = strings.TrimSpace(l)
 	if i := strings.LastIndexByte(l, '\n'); i >= 0 {
@@ -876,7 +904,7 @@ func (s *Sim) produceBlock(opIdx int, b *BlockOp) *core.Violation {
 		}
 		if err != nil {
 			if s.Prop == "C10" {
-				return cViol("C10", "propose-error", "propose-error", fmt.Sprintf("replica %d could not build a proposal for height %d: %v", p.Idx, h, err))
+				return cViol("C10", "propose-error", rejectedFingerprint("propose-error"), fmt.Sprintf("replica %d could not build a proposal for height %d: %v", p.Idx, h, err))
 			}
 			s.Aborted = "propose-error"
 			return nil
@@ -895,7 +923,7 @@ func (s *Sim) produceBlock(opIdx int, b *BlockOp) *core.Violation {
 				return s.electionFailure()
 			}
 			if (!ok || err != nil) && s.Prop == "C10" {
-				return cViol("C10", "honest-proposal-rejected", "honest-proposal-rejected", fmt.Sprintf("replica %d rejected the honest proposal of replica %d for height %d round %d (err=%v)", r.Idx, p.Idx, h, round, err))
+				return cViol("C10", "honest-proposal-rejected", rejectedFingerprint("honest-proposal-rejected"), fmt.Sprintf("replica %d rejected the honest proposal of replica %d for height %d round %d (err=%v)", r.Idx, p.Idx, h, round, err))
 			}
 		}
 		s.St.Inc("probe.abandoned_round")
@@ -923,7 +951,7 @@ func (s *Sim) produceBlock(opIdx int, b *BlockOp) *core.Violation {
 	}
 	if err != nil {
 		if s.Prop == "C10" {
-			return cViol("C10", "propose-error", "propose-error", fmt.Sprintf("replica %d could not build a proposal for height %d: %v", p.Idx, h, err))
+			return cViol("C10", "propose-error", rejectedFingerprint("propose-error"), fmt.Sprintf("replica %d could not build a proposal for height %d: %v", p.Idx, h, err))
 		}
 		s.Aborted = "propose-error"
 		return nil
@@ -1019,7 +1047,7 @@ func (s *Sim) produceBlock(opIdx int, b *BlockOp) *core.Violation {
 			}
 			if !ok || perr != nil {
 				if s.Prop == "C10" || s.Prop == "C01" {
-					return cViol(s.Prop, "honest-proposal-rejected", "honest-proposal-rejected", fmt.Sprintf("replica %d (%s) rejected the honest proposal of replica %d for height %d (err=%v)", r.Idx, name, p.Idx, h, perr))
+					return cViol(s.Prop, "honest-proposal-rejected", rejectedFingerprint("honest-proposal-rejected"), fmt.Sprintf("replica %d (%s) rejected the honest proposal of replica %d for height %d (err=%v)", r.Idx, name, p.Idx, h, perr))
 				}
 				s.Aborted = "proposal-rejected"
 				return nil
